@@ -1191,23 +1191,55 @@ func (s *sim) replayTriggers(b builtReplay) (out []string) {
 	if b.H != s.vv.Height {
 		return nil
 	}
+	// replays that the kernel turns down before it looks at the round (other predecessor, validator
+	// set or lists that are not the expected ones) reach none of the sites below
+	switch b.Variant {
+	case rvForeignSet, rvForeignPowers, rvForeignPubKeysOnly, rvForgedNext, rvEmptyValSet:
+		return nil
+	case rvWrongPrev:
+		if s.cv.Height > 0 {
+			return nil
+		}
+	}
 	if b.R < s.vv.Round {
 		out = append(out, "C09-A9")
 	}
 	if b.R >= s.vv.Round+2 {
 		out = append(out, "C09-A25")
 	}
-	if len(b.Header.ValidatorSet.Validators) == 0 {
-		for hash := range b.Proof.Proofs {
-			if _, ok := s.vv.PrecommitProofs[hash]; !ok || b.R != s.vv.Round {
-				out = append(out, "C09-A10")
+	// A11: the replay passes validation (hash, signatures, > 2/3), its header is not in the view it lands in,
+	// and the round store already holds that hash as a proposed header of another round of the height
+	if b.Variant == rvHonest || b.Variant == rvExtraNil || b.Variant == rvBelowQuorum {
+		set := s.setFor(b.H)
+		hash := string(b.Header.Hash)
+		ok, bad := checkSigs(set, 1, b.H, b.R, hash, b.Proof.Proofs[hash])
+		// the offered signatures are merged into what the node already holds for that round
+		if _, _, pc, err := s.d.rs.LoadRoundState(context.Background(), b.H, b.R); err == nil {
+			have, _ := checkSigs(set, 1, b.H, b.R, hash, pc.BlockSignatures[hash])
+			for i := range have {
+				ok[i] = true
 			}
 		}
-	}
-	// header hash stored as a proposal for a round whose view is not the one the replay lands in
-	for _, k := range s.knownAt(b.H) {
-		if bytes.Equal(k.Header.Hash, b.Header.Hash) && (k.Round != b.R || (b.R == s.vv.Round && !s.inVotingView(string(k.Header.Hash)))) {
-			out = append(out, "C09-A11")
+		if bad == "" && exceedsTwoThirds(powerOf(set, ok), set.total()) {
+			here, elsewhere := false, false
+			for r := uint32(0); r <= s.vv.Round+3 || r <= b.R; r++ {
+				phs, _, _, err := s.d.rs.LoadRoundState(context.Background(), b.H, r)
+				if err != nil {
+					continue
+				}
+				for _, ph := range phs {
+					if string(ph.Header.Hash) == hash && len(ph.Signature) > 0 {
+						if r == b.R {
+							here = true
+						} else {
+							elsewhere = true
+						}
+					}
+				}
+			}
+			if elsewhere && !here {
+				out = append(out, "C09-A11")
+			}
 		}
 	}
 	return out
